@@ -72,7 +72,7 @@ Qs == << [pi |-> 1, n |-> 2, d |-> 1],     \* the default 2 pi
          [pi |-> 0, n |-> 3, d |-> 1] >>     \* an integer (rendered as a Python int)
 LinTs == << <<0, 1>>, <<100, 5>>, <<7, 1000>> >>                  \* <<first, interval>>
 LogTs == << <<0, 1, 2, 4, 8>>, <<10, 20, 40, 80, 160>>, <<0, 1, 3, 4, 5>>, <<5, 6, 8, 10, 12>> >>
-Dts == << <<1, 500>>, <<1, 4>>, <<3, 1>>, <<1, 1>> >>
+Dts == << <<1, 500>>, <<1, 4>>, <<3, 1>>, <<1, 1>>, <<3, 10>>, <<7, 10>>, <<9, 1000>>, <<3, 10000>> >>   \* dyadic, integer and decimal time steps
 
 Pick(seq, h) == seq[1 + (h % Len(seq))]
 
